@@ -591,10 +591,63 @@ class RuleResult:
     def add(self, finding):
         self.findings.append(finding)
 
+    error = None      # set when the rule function itself lost an anchor (see guarded): reported like a missed floor
+
     def check_floor(self):
+        if self.error is not None:
+            raise AnalysisError(self.error)
         if len(self.instances) < self.floor:
             raise AnalysisError('rule %s matched %d instances, floor is %d - the rule lost its anchors'
                                 % (self.rule, len(self.instances), self.floor))
+
+
+class _ErrorResult(RuleResult):
+    """placeholder for a rule (or a list of rules) whose function lost its anchor: usable wherever the function's normal result is used -
+    as one RuleResult, or as the list some rule functions return (+, append, extend, iteration)"""
+
+    def __init__(self, rid, msg):
+        RuleResult.__init__(self, rid, 'rule could not be evaluated: ' + msg[:120])
+        self.error = msg
+        self._more = []
+
+    def __iter__(self):
+        return iter([self] + self._more)
+
+    def __len__(self):
+        return 1 + len(self._more)
+
+    def __add__(self, other):
+        return [self] + self._more + list(other)
+
+    def __radd__(self, other):
+        return list(other) + [self] + self._more
+
+    def append(self, x):
+        self._more.append(x)
+
+    def extend(self, xs):
+        self._more.extend(xs)
+
+
+def guarded(fn):
+    """Isolation between the rules of one property: a rule that loses its anchor (AnalysisError) no longer prevents its sibling rules from
+    running - their findings are what names the broken construct.  The error is kept on a placeholder result and is raised by check_floor,
+    so a run without any finding still ends as ANALYSIS-ERROR (exit 2), never as a silent pass."""
+    import functools
+
+    @functools.wraps(fn)
+    def wrapper(*a, **kw):
+        try:
+            return fn(*a, **kw)
+        except AnalysisError as e:
+            msg = str(e)
+            head = msg.split(':')[0].strip()
+            rid = head if ':' in msg and len(head) < 16 and ' ' not in head else fn.__name__
+            return _ErrorResult(rid, msg)
+    return wrapper
+
+
+guarded_list = guarded
 
 
 # --------------------------------------------------------------------------- known findings
@@ -611,7 +664,7 @@ def run_property(prop_id, rules_fn, tier, root=None, overlay=None, write=True, q
     """Run all rules of one property; print report; write evidence; return exit code."""
     t0 = time.time()
     repo = Repo(root, overlay)
-    results = rules_fn(repo, tier)
+    results = list(rules_fn(repo, tier))
     floor_errors = []
     for r in results:
         try:
